@@ -718,6 +718,12 @@ class EngineRun:
                 setattr(ctx, extra_k, extra_v)
             if op.get("now_ms_callable"):
                 hand_over_clock(ctx, op.get("now_ms", T0_MS))
+            if op.get("now_ms_const_fn"):
+                # the logical clock handed over as a function that returns the turn's logical time (the scheduler's own clock
+                # reader expects a callable), ctx.now unset
+                _ms = int(op.get("now_ms", T0_MS))
+                ctx.now_ms = (lambda _v=_ms: _v)
+                ctx.now = None
             self.last_ctx = ctx
             res = self.turn_fn(ctx, st, op["text"])
             self.results.append(res)
